@@ -415,7 +415,7 @@ def r10_arity(ctx, modules=None, rule='R10'):
                     drop = True
                 if fi is None:
                     continue
-                err = bind_error(c, fi, drop)
+                err = bind_error(res.effective_call(c, m, ctx.repo.enclosing_func(c)), fi, drop)
                 n += 1
                 run.check(err is None, rule, where(ctx.repo, c), fq(ctx.repo, c), c,
                           'call to %s does not bind: %s (this path raises TypeError whenever it is taken)'
